@@ -1,6 +1,8 @@
 (** C10 — every server reply is a valid SMTP reply whatever text is embedded in it.
     Only statements here; proofs live in Proofs/NetWritenProofs.v. *)
-From Qv Require Import Common.Bytes Gen.GenNetio Model.NetWriten Spec.ReplySpec Proofs.NetWritenProofs.
+From Qv Require Import Common.Bytes Common.ReplyTpl Gen.GenNetio Gen.GenReplies Model.NetWriten Model.ReplySites
+  Spec.ReplySpec Spec.ReplySitesSpec Proofs.NetWritenProofs Proofs.ReplySitesProofs Proofs.ReplyHoleSources.
+From Qv Require Spec.AddrSpec Spec.SpfSpec Spec.LineSpec.
 
 (** For every first element "NNNc"+text shorter than 510 octets and every list
     of embedded strings of any length with blanks anywhere or nowhere, as long
@@ -24,3 +26,119 @@ Example C10_nonvacuous :
 Proof.
   split; [repeat split; simpl; lia|]. eexists. split; [vm_compute; reflexivity|reflexivity].
 Qed.
+
+(** * The call sites (engine `replysites`): every place where Qsmtpd builds a reply
+
+    Gen/GenReplies.v is regenerated from qsmtpd/**/*.c and lib/*.c on every run: [netwrite_literals] (every
+    netwrite() of a literal), [writen_templates] / [multiline_templates] (every net_writen / net_write_multiline
+    call, one template per shape its array can have), [hole_sources] (where each embedded string comes from). *)
+
+(** (i) every fixed reply is one valid reply: split at CRLF, every line <= 512 octets with CRLF, the same three
+    digit code on all lines, '-' on all but the last and ' ' on the last, no other CR or LF, CRLF at the end. *)
+Theorem C10_literal_replies :
+  Forall (fun e => literal_reply_ok (snd e) = true /\ valid_reply_stream (snd e)) netwrite_literals.
+Proof. exact thm_literal_replies. Qed.
+Print Assumptions C10_literal_replies.
+
+(** the boolean checker used in (i) means what Spec/ReplySitesSpec.v:valid_reply_stream says, for every octet string *)
+Theorem C10_literal_checker_sound : forall b, literal_reply_ok b = true -> valid_reply_stream b.
+Proof. exact literal_reply_ok_sound. Qed.
+Print Assumptions C10_literal_checker_sound.
+
+(** every generated template passes its check: first element a literal "NNN text" below 510 octets (or the
+    validated code of cb_nomail), every other literal free of CR/LF, only text classes in the holes; a
+    net_write_multiline template is a valid reply for whatever its (bounded) holes hold, and fits its array *)
+Theorem C10_templates_ok :
+  Forall (fun e => template_ok (snd e) = true) writen_templates
+  /\ Forall (fun e => ml_template_ok (snd e) = true /\ length (snd e) < ML_CAPACITY) multiline_templates.
+Proof. exact thm_templates_ok. Qed.
+Print Assumptions C10_templates_ok.
+
+(** (ii) for EVERY net_writen call site and shape in the generated table and EVERY assignment of strings to its
+    holes that their source classes allow ([class_inv]: free of CR/LF; any length, blanks anywhere or nowhere):
+    the array is [s0 :: parts] with s0 = three digits, a blank, text; net_writen does not crash and writes a
+    valid reply with that code, ' ' on the last line, carrying the text of the array completely and in order. *)
+Theorem C10_sites_writen : forall key func t args,
+  In (key, func, t) writen_templates -> Forall2 elem_rel t args ->
+  exists s0 parts code t0 ls, args = s0 :: parts /\ s0 = code ++ [SP] ++ t0 /\ length code = 3 /\ Forall digit_P code
+    /\ net_writen s0 parts = Ok ls /\ valid_reply_for code SP (t0 ++ concat parts) ls.
+Proof. exact thm_sites_writen. Qed.
+Print Assumptions C10_sites_writen.
+
+(** (iii) net_write_multiline: whenever the strings it is given concatenate to one valid reply, none of its
+    asserts fails and it writes exactly these octets (in one piece) *)
+Theorem C10_multiline_writer : forall s : list bytes, s <> [] -> valid_reply_stream (concat s) ->
+  net_write_multiline s = Ok [concat s].
+Proof. exact net_write_multiline_ok. Qed.
+Print Assumptions C10_multiline_writer.
+
+(** ... and every net_write_multiline call site (the EHLO reply in all its shapes) meets that contract whatever
+    its holes hold within their classes (host name <= 255 octets, the AUTH list and the SIZE value followed by
+    CRLF); the array with its terminating NULL fits the declared array *)
+Theorem C10_sites_multiline : forall key func t args,
+  In (key, func, t) multiline_templates -> Forall2 elem_rel t args ->
+  net_write_multiline args = Ok [concat args] /\ valid_reply_stream (concat args) /\ length args < ML_CAPACITY.
+Proof. exact thm_sites_multiline. Qed.
+Print Assumptions C10_sites_multiline.
+
+(** 3. DNS supplied text: whatever octets the TXT records hold, the string dnstxt() returns - the one cb_dnsbl and
+    cb_namebl embed - has no CR, LF or NUL, has the length of the record and differs from it only where the
+    record had a control octet (replaced by '?').  (The unpatched dnstxt() passes the record on unchanged:
+    "x CR LF 250 ok" in a TXT record became a line of its own in the reply; fixes/C10-dnstxt-control-chars.diff.) *)
+Theorem C10_dnstxt_clean : forall raw v, dnstxt raw = Some v ->
+  v = txt_sanitise raw /\ class_inv HDnsTxt v /\ ~ In 0%N v /\ length v = length raw
+  /\ Forall2 (fun a b => (b = a /\ (32 <= a \/ a = 9)%N /\ a <> 127%N) \/ (b = 63%N /\ ((a < 32)%N /\ a <> 9%N \/ a = 127%N))) raw v.
+Proof. exact dnstxt_clean. Qed.
+Print Assumptions C10_dnstxt_clean.
+
+(** configuration supplied text: cb_nomail, for EVERY text the control file "nomail" can hold (any octets but NUL,
+    any length): no crash, a valid reply, with the file's own code when it starts with "[45]dd [45].d.d " and a
+    ten octet code of the server otherwise, carrying the text (control octets replaced) completely and in order.
+    (The unpatched cb_nomail handed the whole text to net_writen as s[0]: a text of 511 octets or more that starts with a code
+    overflowed msg[512]; a CR in the file went into the reply; fixes/C10-nomail-code-and-control-chars.diff.) *)
+Theorem C10_nomail : forall raw, ~ In 0%N raw ->
+  exists ls code payload, cb_nomail raw = Ok (Some ls) /\ length code = 3 /\ Forall digit_P code
+    /\ valid_reply_for code SP payload ls
+    /\ (code ++ [SP] ++ payload = nomail_sanitise raw
+        \/ exists pre, length pre = 10 /\ code ++ [SP] ++ payload = pre ++ nomail_sanitise raw).
+Proof. exact cb_nomail_valid. Qed.
+Print Assumptions C10_nomail.
+
+(** the code before the two fixes has neither property: a TXT record with CR LF reaches the reply unchanged,
+    and a 511 octet nomail text that starts with a code makes net_writen store behind msg[512] (Crash 7) *)
+Theorem C10_unpatched_refuted :
+  (exists raw v, dnstxt_orig raw = Some v /\ ~ no_crlf v)
+  /\ (exists raw, ~ In 0%N raw /\ no_crlf raw /\ forall lit, cb_nomail_orig lit raw = Crash 7).
+Proof. exact unpatched_refuted. Qed.
+Print Assumptions C10_unpatched_refuted.
+
+(** where the class invariants come from: the conclusions of C14_oracle_ref (addresses), C14_domain (names
+    accepted by domainvalid), C11_exp_text_clean (SPF explanation), C05_line_shape (command lines) and
+    C10_dnstxt_clean imply the invariant of the class; and every hole of every template has a recorded source *)
+Theorem C10_hole_sources :
+  (forall ad, Forall AddrSpec.clean7 ad -> class_inv HAddr ad)
+  /\ (forall h, AddrSpec.fqdn h -> class_inv HDomain h)
+  /\ (forall r, SpfSpec.reply_text r = true -> class_inv HSpfExp r)
+  /\ (forall l n, LineSpec.no_crlf l -> class_inv HLineArg (skipn n l))
+  /\ (forall raw v, dnstxt raw = Some v -> class_inv HDnsTxt v)
+  /\ length hole_sources
+     = length (filter (fun e => match e with Hole _ => true | Lit _ => false end)
+                 (concat (map snd writen_templates) ++ concat (map snd multiline_templates))).
+Proof. exact thm_hole_sources. Qed.
+Print Assumptions C10_hole_sources.
+
+(** the site theorems are not vacuous: the table has a DNSBL template with a TXT hole; filled with a list name and
+    what dnstxt() makes of a 1200 octet record half of which are CRs, net_writen writes four lines *)
+Definition is_dnsbl_tpl (e : bytes * bytes * list elem) : bool :=
+  match snd e with [Lit _; Hole HDomain; Lit _; Hole HDnsTxt] => true | _ => false end.
+Example C10_sites_nonvacuous :
+  let raw := repeat 13%N 600 ++ repeat 97%N 600 in
+  match find is_dnsbl_tpl writen_templates, dnstxt raw with
+  | Some (_, _, t), Some v =>
+      match inst t [[98; 108; 46; 101; 120; 97; 109; 112; 108; 101; 46; 111; 114; 103]%N; v] with
+      | Some (s0 :: parts) => match net_writen s0 parts with Ok ls => length ls | _ => 0 end
+      | _ => 0
+      end
+  | _, _ => 0
+  end = 4.
+Proof. vm_compute. reflexivity. Qed.
